@@ -215,6 +215,29 @@ func hsExt(t testing.TB, tr *tracer, c hsCase, root string, ro bool) {
 		"rtyp": f.T(), "code": int(f.Code)})
 }
 
+// hsExtRS: the handler-based server and extended requests it does not know: answered "operation unsupported", and the
+// session goes on
+func hsExtRS(t testing.TB, tr *tracer, c hsCase) {
+	name := c.Name
+	if name == "LONG" {
+		name = strings.Repeat("x", 300) + "@example.com"
+	}
+	s := newSrvSession(t, tr, srvOpts{kind: "rs", quiet: true, quietHandlers: true, hopt: "opvlrk"})
+	s.v.addFile("/a", []byte("a"))
+	s.start()
+	defer func() {
+		s.endEOF()
+		s.waitServe(10 * time.Second)
+		s.conn.Close()
+		waitFor(5*time.Second, s.finiSeen)
+	}()
+	s.call(fInit(3))
+	f, _ := s.call(fExt(7, name, "/a", "/b"))
+	st, ok := s.call(fIDStr(tStat, 8, "/a"))
+	tr.emit("HSExt", kv{"ro": false, "adv": []string{}, "name": c.Name, "served": false, "unsupported": f.Typ == tStatus && f.Code == 8, "sessionok": ok && st.Typ == tAttrs,
+		"rtyp": f.T(), "code": int(f.Code), "server": "rs"})
+}
+
 func TestVerif_Handshake(t *testing.T) {
 	tr := newTracer(t)
 	var cases []hsCase
@@ -238,6 +261,10 @@ func TestVerif_Handshake(t *testing.T) {
 			hsExt(t, tr, c, root, false)
 			tr.reset(kv{"kind": "handshake", "case": "ext-readonly", "i": i})
 			hsExt(t, tr, c, root, true)
+			if !map[string]bool{"statvfs@openssh.com": true, "posix-rename@openssh.com": true, "hardlink@openssh.com": true}[c.Name] && len(c.Adv) == 3 {
+				tr.reset(kv{"kind": "handshake", "case": "ext-requestserver", "i": i})
+				hsExtRS(t, tr, c)
+			}
 		}
 	}
 }
